@@ -2,7 +2,8 @@
 # usage: tools/benign.sh  — applies every behaviour-preserving rewrite under /verif/benign, runs all quick checks, reverts.
 cd /verif
 props="C01 C02 C03 C04 C05 C06 C07 C08 C09 C10 C11 C12 C13 C14 C15 C16 C17 C18 C19 C20"
-for f in benign/*.diff; do
+files="${@:-benign/*.diff}"
+for f in $files; do
   git -C /repo apply "/verif/$f" || { echo "$f does not apply"; continue; }
   (cd harness && CARGO_NET_OFFLINE=true cargo build --offline --release 2>&1 | tail -1) > /dev/null
   for p in $props; do
